@@ -218,21 +218,32 @@ fn relation(v: &str, want: &str, case_insensitive: bool) -> &'static str {
 }
 
 fn classify(cfg: &Cfg, r: &ReqLit) -> Class {
-    let mut silent: Option<String> = None;
-    let mut note = |s: String| {
+    classify2(cfg, r).0
+}
+
+/// The reference class and the *first anomaly*: the dimension (method, path, query, psk, key,
+/// connection, ...) of the first condition, in the statement's order, that is not cleanly
+/// fulfilled. The anomaly is only used to group violations under stable keys.
+fn classify2(cfg: &Cfg, r: &ReqLit) -> (Class, String) {
+    fn note(silent: &mut Option<String>, s: String) {
         if silent.is_none() {
-            silent = Some(s);
+            *silent = Some(s);
         }
+    }
+    fn dim(label: &str) -> String {
+        label.split('=').next().unwrap_or(label).to_string()
+    }
+    let mut silent: Option<String> = None;
+    let invalid = |silent: &Option<String>, why: String| -> (Class, String) {
+        let anomaly = dim(silent.as_deref().unwrap_or(&why));
+        (Class::Invalid(why), anomaly)
     };
     if r.method != "GET" {
-        return Class::Invalid(format!("method={}", if r.method.eq_ignore_ascii_case("GET") { "get-other-case" } else { "not-GET" }));
+        return invalid(&silent, format!("method={}", if r.method.eq_ignore_ascii_case("GET") { "get-other-case" } else { "not-GET" }));
     }
     let (_, path, query) = r.split_uri();
     if path != "/ws" {
-        return Class::Invalid("path".into());
-    }
-    if !query.is_empty() {
-        note("query-string".into());
+        return invalid(&silent, "path".into());
     }
     // PSK: byte-for-byte
     if let Some(psk) = &cfg.psk {
@@ -240,21 +251,21 @@ fn classify(cfg: &Cfg, r: &ReqLit) -> Class {
         let eq = vals.iter().filter(|v| **v == psk).count();
         if eq == 0 {
             let why = vals.first().map_or("absent", |v| relation(v, psk, false));
-            return Class::Invalid(format!("psk={why}"));
+            return invalid(&silent, format!("psk={why}"));
         }
         if eq != vals.len() {
-            note("psk=duplicate-mixed".into());
+            note(&mut silent, "psk=duplicate-mixed".into());
         }
     }
     // key: present
     let keys = r.values("sec-websocket-key");
     if keys.is_empty() {
-        return Class::Invalid("key=absent".into());
+        return invalid(&silent, "key=absent".into());
     }
     if keys.len() > 1 {
-        note("key=duplicate".into());
+        note(&mut silent, "key=duplicate".into());
     } else if !key_well_formed(keys[0]) {
-        note("key=malformed".into());
+        note(&mut silent, "key=malformed".into());
     }
     // the four compared headers: case-insensitive equality
     for (name, want) in [("connection", "upgrade"), ("upgrade", "websocket"), ("sec-websocket-version", "13"), ("sec-websocket-protocol", WANT_PROTOCOL)] {
@@ -262,18 +273,54 @@ fn classify(cfg: &Cfg, r: &ReqLit) -> Class {
         let eq = vals.iter().filter(|v| v.eq_ignore_ascii_case(want)).count();
         if eq == 0 {
             let why = vals.first().map_or("absent", |v| relation(v, want, true));
-            return Class::Invalid(format!("{name}={why}"));
+            return invalid(&silent, format!("{name}={why}"));
         }
         if eq != vals.len() {
-            note(format!("{name}=duplicate-mixed"));
+            note(&mut silent, format!("{name}=duplicate-mixed"));
         }
     }
     if !r.on_upgrade {
-        note("no-OnUpgrade-extension".into());
+        note(&mut silent, "no-OnUpgrade-extension".into());
+    }
+    if !query.is_empty() {
+        note(&mut silent, "query-string".into());
     }
     match silent {
-        Some(s) => Class::Silent(s),
-        None => Class::Valid,
+        Some(s) => {
+            let d = dim(&s);
+            (Class::Silent(s), d)
+        }
+        None => (Class::Valid, "none".into()),
+    }
+}
+
+/// The plainest fully valid upgrade request under `cfg`.
+fn plain_valid_request(cfg: &Cfg) -> ReqLit {
+    let mut headers: Vec<(String, String)> = [("connection", "upgrade"), ("upgrade", "websocket"), ("sec-websocket-version", "13"), ("sec-websocket-protocol", WANT_PROTOCOL), ("sec-websocket-key", KEY_SAMPLE)]
+        .iter()
+        .map(|(n, v)| ((*n).to_string(), (*v).to_string()))
+        .collect();
+    if let Some(p) = &cfg.psk {
+        headers.push(("x-penguin-psk".into(), p.clone()));
+    }
+    ReqLit { method: "GET".into(), uri: "/ws".into(), headers, on_upgrade: true }
+}
+
+/// What differs between two observations (for keys).
+fn diff_signature(a: &Out, b: &Out) -> String {
+    match (a, b) {
+        (Out::Resp { status: sa, headers: ha, .. }, Out::Resp { status: sb, headers: hb, .. }) => {
+            if sa != sb {
+                format!("status-{sa}-instead-of-{sb}")
+            } else if ha != hb {
+                "headers".into()
+            } else {
+                "body".into()
+            }
+        }
+        (Out::Err(_), Out::Resp { .. }) => "service-error-instead-of-response".into(),
+        (Out::Resp { .. }, Out::Err(_)) => "response-instead-of-service-error".into(),
+        _ => "other".into(),
     }
 }
 
@@ -296,10 +343,7 @@ fn valid_flavour(cfg: &Cfg, r: &ReqLit) -> String {
     }
     let p = r.values("x-penguin-psk");
     if cfg.psk.is_none() && !p.is_empty() {
-        return format!("psk-not-configured.header={}", relation(p[0], PSK, false));
-    }
-    if cfg.psk.is_none() {
-        return "psk-not-configured.header=absent".into();
+        return "psk-header-sent-but-none-configured".into();
     }
     "plain".into()
 }
@@ -477,7 +521,17 @@ fn start_backends() -> Backends {
         let rt = tokio::runtime::Builder::new_multi_thread().worker_threads(2).enable_all().build().expect("backend runtime");
         rt.block_on(async move {
             let l = tokio::net::TcpListener::bind("127.0.0.1:0").await.expect("bind backend");
-            tx.send(l.local_addr().expect("addr")).expect("send addr");
+            // the "down" backend: accepts and hangs up at once (a port that is merely closed could
+            // be taken by another process while the run lasts)
+            let broken = tokio::net::TcpListener::bind("127.0.0.1:0").await.expect("bind broken backend");
+            tx.send((l.local_addr().expect("addr"), broken.local_addr().expect("addr"))).expect("send addr");
+            tokio::spawn(async move {
+                loop {
+                    if let Ok((s, _)) = broken.accept().await {
+                        drop(s);
+                    }
+                }
+            });
             loop {
                 let Ok((s, _)) = l.accept().await else { continue };
                 tokio::spawn(async move {
@@ -488,12 +542,7 @@ fn start_backends() -> Backends {
             }
         });
     });
-    let echo = rx.recv_timeout(Duration::from_secs(10)).expect("backend did not start");
-    // a port nobody listens on
-    let down = {
-        let l = std::net::TcpListener::bind("127.0.0.1:0").expect("bind");
-        l.local_addr().expect("addr")
-    };
+    let (echo, down) = rx.recv_timeout(Duration::from_secs(10)).expect("backend did not start");
     Backends { echo, down }
 }
 
@@ -570,7 +619,7 @@ fn path_class(p: &str) -> &'static str {
 async fn judge_inproc(state: &State, cfg: &Cfg, r: &ReqLit, sink: &Sink<'_>, transport: &str) -> Out {
     let t = sink.tally;
     t.cases.fetch_add(1, Ordering::Relaxed);
-    let class = classify(cfg, r);
+    let (class, anomaly) = classify2(cfg, r);
     let path = r.path().to_string();
     let pq = {
         let (_, p, q) = r.split_uri();
@@ -654,7 +703,16 @@ async fn judge_inproc(state: &State, cfg: &Cfg, r: &ReqLit, sink: &Sink<'_>, tra
         Class::Valid => {
             t.ref_valid.fetch_add(1, Ordering::Relaxed);
             if let Err(what) = check_101(&out, &keys) {
-                let fl = valid_flavour(cfg, r);
+                let mut fl = valid_flavour(cfg, r);
+                if out.status() != Some(101) && fl != "plain" {
+                    // group under "plain" when even the plainest valid request is refused
+                    let plain = plain_valid_request(cfg);
+                    let po = call_subject(state, &plain).await;
+                    t.evaluations.fetch_add(1, Ordering::Relaxed);
+                    if check_101(&po, &[KEY_SAMPLE]).is_err() {
+                        fl = "plain".into();
+                    }
+                }
                 if out.status() == Some(101) {
                     sink.viol(format!("101-malformed.{what}"), format!("the 101 response is wrong ({what}): {} [{cfgs}] {}", out.brief(), r.to_json()), rj());
                 } else {
@@ -681,7 +739,7 @@ async fn judge_inproc(state: &State, cfg: &Cfg, r: &ReqLit, sink: &Sink<'_>, tra
                         rj(),
                     );
                 } else if let Err(what) = check_101(&out, &keys) {
-                    sink.viol(format!("101-malformed.{what}.{why}"), format!("the 101 response is wrong ({what}): {} [{cfgs}] {}", out.brief(), r.to_json()), rj());
+                    sink.viol(format!("101-malformed.{what}"), format!("the 101 response is wrong ({what}): {} [{cfgs}] {}", out.brief(), r.to_json()), rj());
                 } else {
                     t.silent_101.fetch_add(1, Ordering::Relaxed);
                 }
@@ -692,12 +750,14 @@ async fn judge_inproc(state: &State, cfg: &Cfg, r: &ReqLit, sink: &Sink<'_>, tra
             let (tp, tq) = (twin.path().to_string(), twin.split_uri().2.to_string());
             let mut same = false;
             let mut last = (out.clone(), out.clone());
+            let mut sig = String::new();
             for attempt in 0..3 {
                 let a = if attempt == 0 { out.clone() } else { call_subject(state, r).await };
                 let b = call_subject(state, &twin).await;
                 t.evaluations.fetch_add(if attempt == 0 { 1 } else { 2 }, Ordering::Relaxed);
                 let (na, nb) = (normalise(&a, &pq), normalise(&b, &format!("{tp}{tq}")));
                 same = na == nb;
+                sig = diff_signature(&na, &nb);
                 last = (a, b);
                 if same || cfg.backend == "none" {
                     break;
@@ -711,7 +771,7 @@ async fn judge_inproc(state: &State, cfg: &Cfg, r: &ReqLit, sink: &Sink<'_>, tra
                 }
             } else {
                 sink.viol(
-                    format!("ws-fallback-differs.{why}"),
+                    format!("ws-fallback-differs.{sig}.{anomaly}"),
                     format!("a non-upgradable request to /ws ({why}) answers {} but the same request on the unknown path {tp} answers {} [{cfgs}] {}", last.0.brief(), last.1.brief(), r.to_json()),
                     rj(),
                 );
@@ -1057,7 +1117,7 @@ async fn judge_wire(state: &State, cfg: &Cfg, r: &ReqLit, sink: &Sink<'_>) -> Wi
         headers: r.headers.iter().map(|(n, v)| (n.clone(), v.trim_matches(|c| c == ' ' || c == '\t').to_string())).collect(),
         ..r.clone()
     };
-    let class = classify(cfg, &semantic);
+    let (class, anomaly) = classify2(cfg, &semantic);
     let path = r.path().to_string();
     let w = wire_call(state, r).await;
     t.evaluations.fetch_add(1, Ordering::Relaxed);
@@ -1104,7 +1164,15 @@ async fn judge_wire(state: &State, cfg: &Cfg, r: &ReqLit, sink: &Sink<'_>) -> Wi
                     o => o.clone(),
                 };
                 if let Err(what) = check_101(&stripped, &keys) {
-                    let key = if is101 { format!("101-malformed.{what}") } else { format!("valid-upgrade-refused.psk-{}.{}", if cfg.psk.is_some() { "configured" } else { "none" }, valid_flavour(cfg, &semantic)) };
+                    let mut fl = valid_flavour(cfg, &semantic);
+                    if !is101 && fl != "plain" {
+                        let po = call_subject(state, &plain_valid_request(cfg)).await;
+                        t.evaluations.fetch_add(1, Ordering::Relaxed);
+                        if check_101(&po, &[KEY_SAMPLE]).is_err() {
+                            fl = "plain".into();
+                        }
+                    }
+                    let key = if is101 { format!("101-malformed.{what}") } else { format!("valid-upgrade-refused.psk-{}.{fl}", if cfg.psk.is_some() { "configured" } else { "none" }) };
                     sink.viol(key, format!("valid upgrade request answered with {} [{cfgs}] {}", w.out.brief(), r.to_json()), rj());
                 } else if w.tunnel_alive != Some(true) {
                     sink.viol("wire.101-without-tunnel".into(), format!("101 was sent but no WebSocket endpoint answered a Ping on the upgraded connection [{cfgs}] {}", r.to_json()), rj());
@@ -1136,11 +1204,7 @@ async fn judge_wire(state: &State, cfg: &Cfg, r: &ReqLit, sink: &Sink<'_>) -> Wi
         if tw.out == w.out {
             t.seen_fallback_equal.fetch_add(1, Ordering::Relaxed);
         } else {
-            let why = match &class {
-                Class::Invalid(w) | Class::Silent(w) => w.clone(),
-                Class::Valid => "valid".into(),
-            };
-            let key = if path == "/ws" { format!("ws-fallback-differs.{why}") } else { format!("obfs.{}-distinguishable", path_class(&path)) };
+            let key = if path == "/ws" { format!("ws-fallback-differs.{}.{anomaly}", diff_signature(&w.out, &tw.out)) } else { format!("obfs.{}-distinguishable", path_class(&path)) };
             sink.viol(key, format!("{path} answers {} but the unknown path {} answers {} [{cfgs}] {}", w.out.brief(), twin.path(), tw.out.brief(), r.to_json()), rj());
         }
     }
@@ -1273,7 +1337,7 @@ pub fn run(args: &Args) -> Report {
     }
     let inproc_cases = tally.cases.load(Ordering::Relaxed);
 
-    // ---- pass 2: a backend is configured (echo: reachable; down: unreachable)
+    // ---- pass 2: a backend is configured (echo: reachable; down: hangs up without answering)
     let backends = start_backends();
     let bdev = deviations(&all, if thorough { 3 } else { 2 });
     let bdev_core = deviations(&core, 2);
@@ -1340,7 +1404,7 @@ pub fn run(args: &Args) -> Report {
     }
     rep.exhaustive = true;
     rep.rule = format!(
-        "pass inproc: every request with at most {k_ext} simultaneous deviations from the fully valid upgrade request over the extended variant tables{} x 4 configurations (PSK configured or not x obfs on/off); pass backend: same construction (smaller bound) with a reachable reflecting backend and with an unreachable backend; pass wire: literal HTTP/1.1 bytes over loopback TCP through serve_connection. A case is one distinct (configuration, literal request) pair.",
+        "pass inproc: every request with at most {k_ext} simultaneous deviations from the fully valid upgrade request over the extended variant tables{} x 4 configurations (PSK configured or not x obfs on/off); pass backend: same construction (smaller bound) with a reachable reflecting backend and with a backend that hangs up without answering; pass wire: literal HTTP/1.1 bytes over loopback TCP through serve_connection. A case is one distinct (configuration, literal request) pair.",
         if thorough { " plus the complete product of the core variants (method 4 x path 6 x 7 variants of each compared header (6 for the version) x key 3 x PSK header 5 x OnUpgrade 2)" } else { " plus at most 3 deviations over the core variants" }
     );
     rep.bounds.insert("dimensions".into(), json!(ds.iter().map(|d| json!({"name": d.name, "variants": d.variants.iter().map(|x| json!({"label": x.label, "literal": x.values, "core": x.core})).collect::<Vec<_>>()})).collect::<Vec<_>>()));
